@@ -23,6 +23,7 @@ import (
 	"math/big"
 	"os"
 	"regexp"
+	"runtime/pprof"
 	"sort"
 	"strconv"
 	"strings"
@@ -889,41 +890,65 @@ func oracle(w *world, m *refminers.Model, oc oracleCtx) []finding {
 		}
 	}
 
-	// 6. conservation (implementation observations only) and the per-account ledger
+	// 6. conservation (implementation observations only) and the per-account ledger.
+	// A conservation failure is reported under the more specific ledger signature when the
+	// escrow or a balance explains it.
+	consMsg := ""
 	if got := w.totalTokens(); got.Cmp(initTotal) != 0 {
-		add(true, "C20:conservation", "liquid + stake*10^18 + escrow = %s, initially %s (difference %s)", got, initTotal, new(big.Int).Sub(got, initTotal))
+		consMsg = fmt.Sprintf("liquid + stake*10^18 + escrow = %s, initially %s (difference %s)", got, initTotal, new(big.Int).Sub(got, initTotal))
 	}
+	specific := false
 	if !diverged {
-		for _, a := range watchAccts {
-			if got, want := w.db.GetBalance(addrOf(a)), m.Bal[a]; got.Cmp(want) != 0 {
-				add(true, "C20:balance", "account …%s: balance %s, expected %s", tail(a), got, want)
-			}
-		}
 		gotE := map[string]string{}
 		for _, d := range w.dueHeights() {
 			for a, v := range w.escrow(d) {
-				gotE[fmt.Sprintf("%d:%s", d, a)] = v.String()
+				gotE[fmt.Sprintf("due %d …%s", d, tail(a))] = v.String()
 			}
 		}
 		for h, l := range w.pendingRefunds() {
 			for a, v := range l {
-				gotE[fmt.Sprintf("p%d:%s", h, a)] = v.String()
+				gotE[fmt.Sprintf("pending for %d …%s", h, tail(a))] = v.String()
 			}
 		}
 		wantE := map[string]string{}
 		for h, l := range m.Escrow {
 			for a, v := range l {
-				wantE[fmt.Sprintf("%d:%s", h, a)] = v.String()
+				wantE[fmt.Sprintf("due %d …%s", h, tail(a))] = v.String()
 			}
 		}
 		for h, l := range m.Pending {
 			for a, v := range l {
-				wantE[fmt.Sprintf("p%d:%s", h, a)] = v.String()
+				wantE[fmt.Sprintf("pending for %d …%s", h, tail(a))] = v.String()
 			}
 		}
 		if !sameStrMap(gotE, wantE) {
-			add(true, "C20:escrow", "scheduled refunds %v, expected %v", gotE, wantE)
+			class := "amount"
+			for k := range wantE {
+				if _, ok := gotE[k]; !ok {
+					class = "refund-lost"
+				}
+			}
+			for k := range gotE {
+				if _, ok := wantE[k]; !ok {
+					class = "unexpected-entry"
+				}
+			}
+			if oc.sameBlk {
+				class += ":same-block"
+			}
+			add(true, "C20:escrow:"+class, "scheduled refunds %v, expected %v; %s", gotE, wantE, consMsg)
+			specific = true
 		}
+		for _, a := range watchAccts {
+			if got, want := w.db.GetBalance(addrOf(a)), m.Bal[a]; got.Cmp(want) != 0 {
+				add(true, "C20:balance", "account …%s: balance %s, expected %s; %s", tail(a), got, want, consMsg)
+				specific = true
+				break
+			}
+		}
+	}
+	if consMsg != "" && !specific && !diverged {
+		add(true, "C20:conservation", "%s", consMsg)
 	}
 	return fs
 }
@@ -1259,6 +1284,8 @@ type bfsNode struct {
 	sealDump map[string]string
 }
 
+var reported = map[string]int{}
+
 func sigSet(fs []finding) string {
 	var s []string
 	for _, f := range fs {
@@ -1272,10 +1299,16 @@ func report(c *fw.Ctx, hist []Op, open int, res nodeResult, pre, preSeal map[str
 	if len(res.findings) == 0 {
 		return
 	}
-	// same input, same observation?
-	again := runNode(hist, open, pre, preSeal)
-	if sigSet(again.findings) != sigSet(res.findings) {
-		harnessFail("observation not reproducible for %s: %s vs %s", histString(hist, open), sigSet(res.findings), sigSet(again.findings))
+	// same input, same observation?  (only for the occurrences that are written out)
+	fresh := false
+	for _, f := range res.findings {
+		fresh = fresh || reported[f.Sig] < 3
+	}
+	if fresh {
+		again := runNode(hist, open, pre, preSeal)
+		if sigSet(again.findings) != sigSet(res.findings) {
+			harnessFail("observation not reproducible for %s: %s vs %s", histString(hist, open), sigSet(res.findings), sigSet(again.findings))
+		}
 	}
 	seen := map[string]bool{}
 	for _, f := range res.findings {
@@ -1283,41 +1316,86 @@ func report(c *fw.Ctx, hist []Op, open int, res nodeResult, pre, preSeal map[str
 			continue
 		}
 		seen[f.Sig] = true
+		reported[f.Sig]++
 		cs := Case{Hist: hist, Open: open, Text: histString(hist, open)}
 		c.Violation(f.Sig, "bfs", fmt.Sprintf("history %s — %s", cs.Text, f.Msg), cs)
 	}
 }
 
+// trimLogs keeps the node's debug logs (written into the worker's scratch directory) small.
+func trimLogs() {
+	es, _ := os.ReadDir("logs")
+	for _, e := range es {
+		os.Truncate("logs/"+e.Name(), 0)
+	}
+}
+
+// reduced alphabet for the deeper phase: validators only, stakes at / above the minimum,
+// refunds by the owner, change-account by the owner.
+func reducedAlphabet() []Op {
+	var ops []Op
+	for m := 0; m < 2; m++ {
+		for a := 0; a < 2; a++ {
+			for s := 1; s < 3; s++ {
+				ops = append(ops, Op{K: "apply", M: m, A: a, T: 0, S: s})
+			}
+		}
+	}
+	for m := 0; m < 2; m++ {
+		ops = append(ops, Op{K: "add", M: m, S: 1})
+		ops = append(ops, Op{K: "refund", M: m, S: 0}, Op{K: "refund", M: m, S: 1})
+		for a := 0; a < 3; a++ {
+			ops = append(ops, Op{K: "chg", M: m, A: a})
+		}
+	}
+	ops = append(ops, Op{K: "release"})
+	return ops
+}
+
 func run(c *fw.Ctx) {
+	if pf := os.Getenv("C20_PROF"); pf != "" && c.Shard == 0 {
+		f, _ := os.Create(pf)
+		pprof.StartCPUProfile(f)
+		defer pprof.StopCPUProfile()
+	}
 	setup()
-	depth := 3
+	d1, d2 := 3, 4
 	if c.Thorough() {
-		depth = 4
+		d1, d2 = 4, 5
 	}
 	if d := os.Getenv("C20_DEPTH"); d != "" {
-		depth, _ = strconv.Atoi(d)
+		d1, _ = strconv.Atoi(d)
+		d2 = 0
 	}
-	ops := alphabet(c.Thorough())
-	c.Note("alphabet", len(ops))
-	c.Note("depth", depth)
+	full := alphabet(c.Thorough())
+	c.Note("phase1", fmt.Sprintf("alphabet of %d operation classes, all histories to depth %d", len(full), d1))
+	if !bfs(c, "full alphabet", full, d1, 1) {
+		return
+	}
+	if d2 > 0 {
+		red := reducedAlphabet()
+		c.Note("phase2", fmt.Sprintf("reduced alphabet of %d operation classes, all histories to depth %d", len(red), d2))
+		// histories up to depth d1 over the reduced alphabet are a subset of phase 1: count from d1+1
+		bfs(c, "reduced alphabet", red, d2, d1+1)
+	}
+}
 
+// bfs explores all histories over ops to the given depth; evidence is counted for levels
+// >= countFrom.  It returns false when the time cap stopped it.
+func bfs(c *fw.Ctx, phase string, ops []Op, depth int, countFrom int) bool {
 	root := runNode(nil, -1, nil, nil)
-	if c.Shard == 0 {
+	if c.Shard == 0 && countFrom <= 1 {
 		report(c, nil, -1, root, nil, nil)
 		c.State(1)
 	}
 	visited := map[string]bool{root.key: true}
 	frontier := []*bfsNode{{hist: nil, open: -1, dump: root.dump, sealDump: root.sealDump}}
 	var caseIdx int64
-	completed := 0
 	for d := 1; d <= depth; d++ {
 		var nextF []*bfsNode
-		count := d > 1 || c.Shard == 0 // level 1 is computed by every worker, counted once
-		stop := false
+		// level 1 is computed by every worker and counted once
+		count := (d > 1 || c.Shard == 0) && d >= countFrom
 		for _, n := range frontier {
-			if stop {
-				break
-			}
 			for _, op := range ops {
 				// packings of the successor: same packing as the parent, and (for a closed
 				// parent) the successor opening the shared block
@@ -1334,14 +1412,19 @@ func run(c *fw.Ctx) {
 						continue
 					}
 					if c.Expired() {
-						c.Cap(fmt.Sprintf("time: depth %d not finished", d))
-						stop = true
-						break
+						c.Cap(fmt.Sprintf("time: %s, depth %d not finished", phase, d))
+						return false
 					}
 					hist := append(append([]Op{}, n.hist...), op)
 					res := runNode(hist, open, n.dump, n.sealDump)
+					if caseIdx%1000 == 0 {
+						trimLogs()
+					}
 					if res.disabled {
 						continue
+					}
+					if d > 1 || c.Shard == 0 {
+						report(c, hist, open, res, n.dump, n.sealDump)
 					}
 					if count {
 						c.Eval(1)
@@ -1349,8 +1432,7 @@ func run(c *fw.Ctx) {
 						c.Trace(1)
 						c.Count("blocks_executed", int64(res.blocks))
 						c.Outcome(res.outcome)
-						report(c, hist, open, res, n.dump, n.sealDump)
-						if len(res.findings) == 0 && res.nontriv {
+						if len(res.findings) == 0 && res.nontriv && len(hist) >= 3 {
 							c.Sample(map[string]string{"history": histString(hist, open), "outcome": res.outcome})
 						}
 					}
@@ -1368,18 +1450,11 @@ func run(c *fw.Ctx) {
 						nextF = append(nextF, &bfsNode{hist: hist, open: open, dump: res.dump, sealDump: res.sealDump})
 					}
 				}
-				if stop {
-					break
-				}
 			}
 		}
-		if stop {
-			break
-		}
-		completed = d
 		frontier = nextF
 	}
-	c.Note("depth_completed_worker0", completed)
+	return true
 }
 
 func replay(c *fw.Ctx, raw json.RawMessage) {
